@@ -200,6 +200,53 @@ func TestMineCancelled(t *testing.T) {
 	})
 }
 
+// ---- concurrent Mine calls on one shared Worker ----
+
+type concCase struct {
+	Workers int        `json:"workers"`
+	Jobs    []mineCase `json:"jobs"`
+	Iters   int        `json:"iters"`
+}
+
+func checkConcurrent(c concCase) (h.Info, error) {
+	info := h.Info{Class: fmt.Sprintf("goroutines=%d", len(c.Jobs)), NT: len(c.Jobs) > 1}
+	w := powv2.New(c.Workers)
+	err := h.Parallel(len(c.Jobs), func(g int) error {
+		jb := c.Jobs[g]
+		for it := 0; it < c.Iters; it++ {
+			ctx, cancel := context.WithTimeout(context.Background(), 60*time.Second)
+			nonce, err := w.Mine(ctx, append([]byte{}, jb.Data...), jb.Target)
+			cancel()
+			if err != nil {
+				continue
+			}
+			if got := powv2.Score(msgOf(jb.Data, nonce)); got < jb.Target {
+				return fmt.Errorf("goroutine %d of %d calling Mine on one shared v2 Worker (%d workers), call %d: v2.Mine(data=%x, target=%d) returned nonce %d with Score %d < target", g, len(c.Jobs), c.Workers, it, []byte(jb.Data), jb.Target, nonce, got)
+			}
+		}
+		return nil
+	})
+	return info, err
+}
+
+func TestMineConcurrent(t *testing.T) {
+	h.Run(t, h.Sub[concCase]{
+		Prop: "C12", Name: "concurrent-callers-one-worker", N: 60,
+		Gen: func(t *rapid.T) concCase {
+			c := concCase{Workers: h.OneOf(t, "workers", 1, 2, 4), Iters: 6}
+			for i := h.OneOf(t, "g", 2, 4, 8); i > 0; i-- {
+				jb := mineCase{Data: h.Bytes(t, "data", 0, 40), Workers: c.Workers, Class: "concurrent"}
+				jb.Target = ref.Pow3(rapid.IntRange(3, 7).Draw(t, "s")).Uint64() / uint64(len(jb.Data)+8)
+				c.Jobs = append(c.Jobs, jb)
+			}
+			return c
+		},
+		Check:   checkConcurrent,
+		Require: []string{"goroutines=2", "goroutines=8"},
+		Rule:    "schedules: 2..8 goroutines released together call Mine on ONE shared v2 Worker (1..4 worker goroutines each), each with its own data and len*target about 3^3..3^7, 6 times; every nonce returned without error must meet the caller's own target for the caller's own data; all non-trivial",
+	})
+}
+
 func genMine(t *rapid.T) mineCase {
 	c := mineCase{Data: h.Bytes(t, "data", 0, 64), Workers: 1}
 	if h.Pick(t, "dlong", 10, 1) == 1 {
